@@ -100,8 +100,77 @@ type condEdge struct {
 	Val  bool
 }
 
-func dominatingConds(t *ssa.BasicBlock) []condEdge {
-	var out []condEdge
+func dominatingConds(t *ssa.BasicBlock) []condEdge { return dominatingCondsD(t, 0) }
+
+// nilCorrelatedPred: the conditions cs hold at a block dominated by b. If one of them says that a phi E of b is nil and
+// exactly one predecessor of b feeds E a nil constant (and b is not a loop header), every path to that block enters b
+// from that predecessor: `x, err = f()` written as result variables set on several paths and tested afterwards.
+func nilCorrelatedPred(b *ssa.BasicBlock, cs []condEdge) *ssa.BasicBlock {
+	if len(b.Preds) < 2 {
+		return nil
+	}
+	for _, p := range b.Preds {
+		if b.Dominates(p) {
+			return nil // loop header
+		}
+	}
+	for _, ce := range cs {
+		x, nonNilOnTrue, ok := nilTest(ce.Cond)
+		if !ok || ce.Val == nonNilOnTrue {
+			continue // not a nil test, or it says "non-nil"
+		}
+		phi, ok := x.(*ssa.Phi)
+		if !ok || phi.Block() != b {
+			continue
+		}
+		var only *ssa.BasicBlock
+		n := 0
+		for i, e := range phi.Edges {
+			if isNilConst(e) {
+				n++
+				only = b.Preds[i]
+			}
+		}
+		if n == 1 {
+			return only
+		}
+	}
+	return nil
+}
+
+func dominatingCondsD(t *ssa.BasicBlock, depth int) (out []condEdge) {
+	defer func() {
+		// path correlation through result variables (see nilCorrelatedPred): continue from the one predecessor that fits
+		if depth > 3 {
+			return
+		}
+		for d := t.Idom(); d != nil; d = d.Idom() {
+			if p := nilCorrelatedPred(d, out); p != nil {
+				extra := dominatingCondsD(p, depth+1)
+				if iff, ok := lastInstr(p).(*ssa.If); ok && len(p.Succs) == 2 && p.Succs[0] != p.Succs[1] {
+					cond, val := iff.Cond, p.Succs[0] == d
+					for {
+						u, isNot := cond.(*ssa.UnOp)
+						if !isNot || u.Op != token.NOT {
+							break
+						}
+						cond, val = u.X, !val
+					}
+					extra = append(extra, condEdge{iff, cond, val})
+				}
+				seen := map[*ssa.If]bool{}
+				for _, ce := range out {
+					seen[ce.If] = true
+				}
+				for _, ce := range extra {
+					if !seen[ce.If] {
+						out = append(out, ce)
+					}
+				}
+				break
+			}
+		}
+	}()
 	for d := t; d != nil; d = d.Idom() {
 		id := d.Idom()
 		if id == nil {
@@ -1265,4 +1334,77 @@ func fieldsWrittenBetween(d, b *ssa.BasicBlock, addr ssa.Value) (map[string]bool
 		}
 	}
 	return out, simple
+}
+
+// resolveAt resolves v as seen from block at: a phi of a block b dominating at, one of whose sibling phis is known to be
+// nil at `at` and is nil on exactly one edge into b, has the value of that edge (see nilCorrelatedPred).
+func resolveAt(v ssa.Value, at *ssa.BasicBlock) ssa.Value {
+	for i := 0; i < 8; i++ {
+		v = resolve(v)
+		phi, ok := v.(*ssa.Phi)
+		if !ok || !phi.Block().Dominates(at) {
+			return v
+		}
+		p := nilCorrelatedPred(phi.Block(), dominatingConds(at))
+		if p == nil {
+			return v
+		}
+		next := v
+		for k, q := range phi.Block().Preds {
+			if q == p {
+				next = phi.Edges[k]
+			}
+		}
+		if next == v {
+			return v
+		}
+		v = next
+	}
+	return v
+}
+
+// errorExitFrom follows straight-line control flow from b: through jumps and through tests `E != nil` of an error phi E
+// whose value on the edge taken is provably a non-nil error. Returns the Return reached, if any.
+func errorExitFrom(b *ssa.BasicBlock) *ssa.Return {
+	r, _ := errorExitFromK(b)
+	return r
+}
+
+// errorExitFromK also returns the values known to be non-nil errors on the path followed.
+func errorExitFromK(b *ssa.BasicBlock) (*ssa.Return, map[ssa.Value]bool) {
+	known := map[ssa.Value]bool{}
+	var prev *ssa.BasicBlock
+	for steps := 0; steps < 8 && b != nil; steps++ {
+		switch x := lastInstr(b).(type) {
+		case *ssa.Return:
+			return x, known
+		case *ssa.Jump:
+			prev, b = b, b.Succs[0]
+		case *ssa.If:
+			tested, nonNilOnTrue, ok := nilTest(x.Cond)
+			if !ok {
+				return nil, nil
+			}
+			val := tested
+			if phi, isPhi := tested.(*ssa.Phi); isPhi && phi.Block() == b && prev != nil {
+				for k, q := range b.Preds {
+					if q == prev {
+						val = phi.Edges[k]
+					}
+				}
+			}
+			if !provablyNonNilErr(val) {
+				return nil, nil
+			}
+			known[tested] = true
+			k := 1
+			if nonNilOnTrue {
+				k = 0
+			}
+			prev, b = b, b.Succs[k]
+		default:
+			return nil, nil
+		}
+	}
+	return nil, nil
 }
